@@ -89,6 +89,14 @@ type TagConn struct {
 	Idx int
 }
 
+// CloseWrite is forwarded, so that the wrapper does not hide from the library what the real connection can do.
+func (t *TagConn) CloseWrite() error {
+	if cw, ok := t.Conn.(interface{ CloseWrite() error }); ok {
+		return cw.CloseWrite()
+	}
+	return errors.New("CloseWrite not supported by the wrapped connection")
+}
+
 type TagListener struct {
 	net.Listener
 	N        int32
@@ -176,6 +184,11 @@ func (d *Disp) VarlinkDispatch(ctx context.Context, c varlink.Call, method strin
 		case 'r':
 			c.Continues = s.cont
 			err = c.Reply(ctx, s.val)
+		case 'd':
+			c.Continues = false
+			dctx, dcancel := context.WithTimeout(ctx, 50*time.Millisecond)
+			err = c.Reply(dctx, s.val)
+			dcancel()
 		case 'e':
 			err = c.ReplyError(ctx, s.name, s.val)
 		case 's':
@@ -237,6 +250,10 @@ func ParseScript(f []string) *Script {
 		switch t[0] {
 		case 'r':
 			st.cont = t[1] == '1'
+			st.policy = t[2]
+			st.val = ParseValue(t[4:])
+		case 'd':
+			// a reply sent under a context with a short deadline of its own (50 ms)
 			st.policy = t[2]
 			st.val = ParseValue(t[4:])
 		case 'e':
